@@ -739,12 +739,14 @@ fn gen_val(t: &mut Tape, kind: &str) -> Val {
             Val::Ck(v)
         }
         "DATE" => {
-            let secs = [0i64, 1724508829, 951782400, 4102444799][t.below(4)];
+            // incl. instants next to a year boundary (ISO week-year / time-zone offset effects)
+            let secs = [0i64, 1724508829, 951782400, 4102444799, 1735516800, 1609459199, 1609459200, 1704067199, 946684800, 68169600][t.below(10)];
             let off = [0i32, 3600, -18000, 19800][t.below(4)];
             let d = chrono::DateTime::from_timestamp(secs, 0).unwrap().with_timezone(&chrono::FixedOffset::east_opt(off).unwrap());
             Val::ODate(Some(d.to_rfc2822()))
         }
-        "NAIVEDATE" => Val::Str(Some(t.pick(&["2024-01-31", "2000-02-29", "1999-12-01"]).to_string())),
+        // incl. days whose ISO week-year, day-of-year or month arithmetic differs from the calendar date
+        "NAIVEDATE" => Val::Str(Some(t.pick(&["2024-01-31", "2000-02-29", "1999-12-01", "2024-12-30", "2021-01-01", "2020-12-31", "2000-01-01", "1999-12-31", "2016-01-03", "2023-03-01", "1970-01-01", "2038-01-19"]).to_string())),
         k if k == "UPBUG" || k.starts_with("VBUG:") => Val::Str(Some(if t.flag() { format!("https://bugs.debian.org/{}", 100000 + t.below(60000)) } else { gen_line(t) })),
         "ENV" => {
             let mut v = vec![];
